@@ -458,6 +458,9 @@ class X12LoopDataNode(X12DataNode):
         """
         (curr, new_path) = self._get_start_node(x12_path_str)
         xpath = path.X12Path(new_path)
+        if xpath.ele_idx is not None:
+            # an element is not a node: nothing to delete (and never the whole segment)
+            raise errors.X12PathError('X12 Path names an element, not a node: %s' % (x12_path_str))
         for n in curr._select(xpath):
             n.delete()
             return True
